@@ -216,10 +216,10 @@ def digitsOfNat (n : Nat) : List Nat := (toString n).toList.map Char.toNat
 
 def asciiUnits (s : String) : List Nat := s.toList.map Char.toNat
 
-/-- `String(x)` for a number (integers with |n| < 10^21 only; the shortest round-trip rendering of other doubles
-    is not modelled) -/
+/-- `String(x)` for a number (integers with |n| ≤ 2^53 only, where the decimal expansion is the shortest
+    round-trip rendering; other doubles are not modelled) -/
 def numToString : Num → R (List Nat)
-  | .int n => if n.natAbs < 10 ^ 21 then
+  | .int n => if n.natAbs ≤ 2 ^ 53 then
       .ok (if n < 0 then 45 :: digitsOfNat n.natAbs else digitsOfNat n.natAbs) else .error .unmodelled
   | .negZero => .ok [48]
   | .nan => .ok (asciiUnits "NaN")
@@ -548,82 +548,83 @@ def storeElems (src : Option TA) (dst : Option TA) (gs : List GoVal) : R (List G
   | some s, some d => gs.mapM (fun g => do let x ← getNum g; .ok (.num (storeTA d (storeTA s x))))
   | some _, none => .error .unmodelled
 
+/-- jsmapping.js:195-197: `if (v && v.__internal_object__ !== undefined) return $assertType(v.__internal_object__, t, false);`
+    — tested before the kind switch, for every `t` other than `*js.Object`. -/
+def guardWrapper (j : JsVal) (k : R GoVal) : R GoVal :=
+  match j with
+  | .wrapper id => .ok (.opaque id)
+  | _ => k
+
+/-- `new t(0, v)` for the values `v` whose `Math.ceil` / `>>> 0` are modelled -/
+def intern64 (signed : Bool) (j : JsVal) : R GoVal :=
+  match j with
+  | .num x => .ok (mk64 signed x)
+  | .undef => .ok (mk64 signed .nan)
+  | .null => .ok (mk64 signed (.int 0))
+  | .bool b => .ok (mk64 signed (.int (if b then 1 else 0)))
+  | _ => .error .unmodelled
+
 mutual
 /-- `$internalize(v, t)` -/
 def internalize (τ : Ty) (j : JsVal) : R GoVal :=
   match τ with
   | .jsobj => .ok (.jsobj j)                             -- :189-191
-  | .iface => internIface j
-  | _ =>
+  | .iface => internIface j                              -- :195-197, :272-322
+  | .bool => guardWrapper j (.ok (.bool (truthy j)))     -- :213-214
+  | .int k => guardWrapper j (do let x ← parseIntJs j; .ok (.num (fixInt k x)))        -- :215-231
+  | .i64 => guardWrapper j (intern64 true j)             -- :232-234 `new t(0, v)`
+  | .u64 => guardWrapper j (intern64 false j)
+  | .f32 | .f64 => guardWrapper j (do let x ← parseFloatJs j; .ok (.num x))           -- :235-237
+  | .arr n e =>                                          -- :238-245
     match j with
-    | .wrapper id => .ok (.opaque id)                    -- :195-197
-    | _ =>
-      match τ with
-      | .jsobj => .ok (.jsobj j)
-      | .iface => internIface j
-      | .bool => .ok (.bool (truthy j))                  -- :213-214
-      | .int k => do let x ← parseIntJs j; .ok (.num (fixInt k x))        -- :215-231
-      | .i64 =>                                          -- :232-234 `new t(0, v)`
-        match j with
-        | .num x => .ok (mk64 true x)
-        | .undef => .ok (mk64 true .nan)
-        | .null => .ok (mk64 true (.int 0))
-        | .bool b => .ok (mk64 true (.int (if b then 1 else 0)))
-        | _ => .error .unmodelled
-      | .u64 =>
-        match j with
-        | .num x => .ok (mk64 false x)
-        | .undef => .ok (mk64 false .nan)
-        | .null => .ok (mk64 false (.int 0))
-        | .bool b => .ok (mk64 false (.int (if b then 1 else 0)))
-        | _ => .error .unmodelled
-      | .f32 | .f64 => do let x ← parseFloatJs j; .ok (.num x)           -- :235-237
-      | .arr n e =>                                      -- :238-245
-        match j with
-        | .undef | .null => .error .cannotInternalize
-        | .arr es =>
-          if es.length ≠ n then .error .wrongSize
-          else do let gs ← es.mapM (internalize e); .ok (.arr gs)
-        | .typed c xs =>
-          if xs.length ≠ n then .error .wrongSize
-          else do
-            let gs ← xs.mapM (fun x => internalize e (.num x))
-            let gs ← storeElems (some c) (some c) gs
-            .ok (.arr gs)
-        | .str u => if u.length ≠ n then .error .wrongSize else .error .unmodelled
-        | _ => .error .wrongSize                         -- `v.length` is undefined
-      | .func _ _ _ => .ok (.jsfunc j)                   -- :246-271
-      | .map e =>                                        -- :323-331
-        match j with
-        | .obj ks vs => do
-          let gs ← vs.mapM (internalize e)
-          .ok (goMapOfPairs ((ks.map internalizeString).zip gs))
-        | .undef | .null | .bool _ | .num _ | .jsfun _ | .gofun _ => .ok (.map [] [])   -- `$keys` yields []
-        | .str u => if u.isEmpty then .ok (.map [] []) else .error .unmodelled
-        | _ => .error .unmodelled
-      | .ptr e =>                                        -- :332-335, falls through to the slice case
-        match e with
-        | .struct _ _ => do let g ← internalize e j; .ok (.ptr g)
-        | _ => if isNullish j then .ok .nil else .error .unmodelled
-      | .slice e =>                                      -- :336-340
-        match j with
-        | .undef | .null => .ok .nil                     -- `v == null` → `t.zero()`
-        | .arr es => do
-          let gs ← es.mapM (internalize e)
-          let gs ← storeElems none (nativeTA e) gs
-          .ok (.slice gs)
-        | .typed c xs => do
-          let gs ← xs.mapM (fun x => internalize e (.num x))
-          let gs ← storeElems (some c) (nativeTA e) gs
-          .ok (.slice gs)
-        | _ => .error .unmodelled
-      | .str => do let u ← toStringJs j; .ok (.str (internalizeString u))   -- :341-360
-      | .struct flds tys =>                              -- :361-402
-        match wrapJs (.struct flds tys) j with
-        | some o => .ok o
-        | none => do
-          let fs ← internFields flds tys j
-          .ok (.struct fs)
+    | .wrapper id => .ok (.opaque id)
+    | .undef | .null => .error .cannotInternalize
+    | .arr es =>
+      if es.length ≠ n then .error .wrongSize
+      else do let gs ← es.mapM (internalize e); .ok (.arr gs)
+    | .typed c xs =>
+      if xs.length ≠ n then .error .wrongSize
+      else do
+        let gs ← xs.mapM (fun x => internalize e (.num x))
+        let gs ← storeElems (some c) (some c) gs
+        .ok (.arr gs)
+    | .str u => if u.length ≠ n then .error .wrongSize else .error .unmodelled
+    | _ => .error .wrongSize                             -- `v.length` is undefined
+  | .func _ _ _ => guardWrapper j (.ok (.jsfunc j))      -- :246-271
+  | .map e =>                                            -- :323-331
+    match j with
+    | .wrapper id => .ok (.opaque id)
+    | .obj ks vs => do
+      let gs ← vs.mapM (internalize e)
+      .ok (goMapOfPairs ((ks.map internalizeString).zip gs))
+    | .undef | .null | .bool _ | .num _ | .jsfun _ | .gofun _ => .ok (.map [] [])   -- `$keys` yields []
+    | .str u => if u.isEmpty then .ok (.map [] []) else .error .unmodelled
+    | _ => .error .unmodelled
+  | .ptr e =>                                            -- :332-335, falls through to the slice case
+    match e with
+    | .struct _ _ => guardWrapper j (do let g ← internalize e j; .ok (.ptr g))
+    | _ => guardWrapper j (if isNullish j then .ok .nil else .error .unmodelled)
+  | .slice e =>                                          -- :336-340
+    match j with
+    | .wrapper id => .ok (.opaque id)
+    | .undef | .null => .ok .nil                         -- `v == null` → `t.zero()`
+    | .arr es => do
+      let gs ← es.mapM (internalize e)
+      let gs ← storeElems none (nativeTA e) gs
+      .ok (.slice gs)
+    | .typed c xs => do
+      let gs ← xs.mapM (fun x => internalize e (.num x))
+      let gs ← storeElems (some c) (nativeTA e) gs
+      .ok (.slice gs)
+    | _ => .error .unmodelled
+  | .str => guardWrapper j (do let u ← toStringJs j; .ok (.str (internalizeString u)))   -- :341-360
+  | .struct flds tys =>                                  -- :361-402
+    guardWrapper j (
+      match wrapJs (.struct flds tys) j with
+      | some o => .ok o
+      | none => do
+        let fs ← internFields flds tys j
+        .ok (.struct fs))
 
 /-- jsmapping.js:393-401: `n = new t.ptr(); for (i …) { if (!f.exported) continue; n[f.prop] = $internalize(v[f.name], f.typ) }` -/
 def internFields (flds : List Fld) (tys : List Ty) (j : JsVal) : R (List GoVal) :=
